@@ -255,7 +255,7 @@ func (s *scan) newFile(tag uint64) error {
 const (
 	// Inputs whose largest length claim is above runLimit are not executed unless the claim is above
 	// panicLimit, where runtime.makeslice panics before allocating anything (maxAlloc = 2^48).
-	runLimit   = 1 << 20
+	runLimit   = 1 << 16
 	panicLimit = 1 << 48
 )
 
@@ -265,15 +265,33 @@ type decodeResult struct {
 	canon   string
 }
 
-// checkArbitrary applies the third clause of the property to one input.
-func checkArbitrary(in []byte, verbose bool) decodeResult {
+// dropPhysicalBackingValueSize zeroes the one attribute canonTable ignores, so that DebugString (which
+// prints it) can be compared as well.
+func dropPhysicalBackingValueSize(ve *manifest.VersionEdit) {
+	for _, nt := range ve.NewTables {
+		if !nt.Meta.Virtual {
+			for i := range nt.Meta.BlobReferences {
+				nt.Meta.BlobReferences[i].BackingValueSize = 0
+			}
+		}
+	}
+}
+
+// checkArbitrary applies the third clause of the property to one input. deep additionally compares
+// DebugString/String of the two decoded edits and re-encodes a second time.
+func checkArbitrary(in []byte, deep, verbose bool) decodeResult {
+	r := checkArbitrary1(in, deep, verbose)
+	return r
+}
+
+func checkArbitrary1(in []byte, deep, verbose bool) decodeResult {
 	s := scan{in: in}
 	accept := s.run()
 	if verbose {
 		fmt.Printf("input %x\nsyntax model: accept=%v largest length claim=%d bytes\n", in, accept, s.maxClaim)
 	}
 	if s.maxClaim > runLimit && s.maxClaim <= panicLimit {
-		return decodeResult{outcome: "not-run:length-prefix-claims>1MiB"}
+		return decodeResult{outcome: "not-run:length-prefix-claims>64KiB"}
 	}
 	var ve manifest.VersionEdit
 	var err error
@@ -282,6 +300,7 @@ func checkArbitrary(in []byte, verbose bool) decodeResult {
 			// Own class: a length prefix read from the input is passed to make() unchecked.
 			fl.class = "panic-decode-length-prefix"
 			fl.desc += fmt.Sprintf(" (a length prefix in the input claims %d bytes)", s.maxClaim)
+			return decodeResult{outcome: "panic:length-prefix", fl: fl}
 		}
 		return decodeResult{outcome: "panic", fl: fl}
 	}
@@ -296,20 +315,33 @@ func checkArbitrary(in []byte, verbose bool) decodeResult {
 		return decodeResult{outcome: "error"}
 	}
 	resolveBackings(&ve, nil)
+	// findings with their own class
+	known := ""
+	if bareNewFile5(&ve) {
+		known = classBareNewFile5
+	} else if k := lossyDecodedTable(&ve); k != "" {
+		known = k
+	}
+	fail := func(outcome, class, desc string) decodeResult {
+		if known != "" {
+			return decodeResult{outcome: "finding:" + known, fl: &failure{known, desc}}
+		}
+		return decodeResult{outcome: outcome, fl: &failure{class, desc}}
+	}
 	var enc []byte
 	if fl := catch("Encode(decoded)", func() { enc, err = encode(&ve) }); fl != nil {
 		return decodeResult{outcome: "panic", fl: fl}
 	}
 	if err != nil {
-		return decodeResult{outcome: "reencode-error", fl: &failure{"arbitrary-reencode-error", "Decode accepted the input but Encode of the result fails: " + err.Error()}}
+		return fail("reencode-error", "arbitrary-reencode-error", "Decode accepted the input but Encode of the result fails: "+err.Error())
 	}
 	var ve2 manifest.VersionEdit
 	if fl := catch("Decode(reencoded)", func() { err = ve2.Decode(bytes.NewReader(enc)) }); fl != nil {
 		return decodeResult{outcome: "panic", fl: fl}
 	}
 	if err != nil {
-		return decodeResult{outcome: "redecode-error", fl: &failure{"arbitrary-redecode-error",
-			fmt.Sprintf("Decode accepted the input, but its re-encoding %x is rejected: %v", enc, err)}}
+		return fail("redecode-error", "arbitrary-redecode-error",
+			fmt.Sprintf("Decode accepted the input, but its re-encoding %x is rejected: %v", enc, err))
 	}
 	resolveBackings(&ve2, nil)
 	c1, c2 := canonEdit(&ve), canonEdit(&ve2)
@@ -317,24 +349,28 @@ func checkArbitrary(in []byte, verbose bool) decodeResult {
 		fmt.Printf("decoded:\n%sre-encoded %x\ndecoded again:\n%s", c1, enc, c2)
 	}
 	if c1 != c2 {
-		return decodeResult{outcome: "not-stable", fl: &failure{"arbitrary-not-stable",
-			fmt.Sprintf("Decode accepted the input but Decode(Encode(edit)) is a different edit\n--- decoded\n%s--- re-encoded %x decodes to\n%s", c1, enc, c2)}}
+		return fail("not-stable", "arbitrary-not-stable",
+			fmt.Sprintf("Decode accepted the input but Decode(Encode(edit)) is a different edit\n--- decoded\n%s--- re-encoded %x decodes to\n%s", c1, enc, c2))
 	}
-	var d1, d2 string
-	if fl := catch("DebugString", func() { d1, d2 = debugStrings(&ve), debugStrings(&ve2) }); fl != nil {
-		return decodeResult{outcome: "panic", fl: fl}
-	}
-	if d1 != d2 {
-		return decodeResult{outcome: "not-stable", fl: &failure{"arbitrary-debugstring-not-stable",
-			fmt.Sprintf("DebugString differs after re-encoding\n--- decoded\n%s--- again\n%s", d1, d2)}}
-	}
-	var enc2 []byte
-	if fl := catch("Encode(decoded twice)", func() { enc2, err = encode(&ve2) }); fl != nil {
-		return decodeResult{outcome: "panic", fl: fl}
-	}
-	if err != nil || !sameEncoding(&ve, enc, enc2) {
-		return decodeResult{outcome: "not-stable", fl: &failure{"arbitrary-reencode-differs",
-			fmt.Sprintf("second re-encoding differs (err=%v)\n first %x\nsecond %x", err, enc, enc2)}}
+	if deep {
+		dropPhysicalBackingValueSize(&ve)
+		dropPhysicalBackingValueSize(&ve2)
+		var d1, d2 string
+		if fl := catch("DebugString", func() { d1, d2 = debugStrings(&ve), debugStrings(&ve2) }); fl != nil {
+			return decodeResult{outcome: "panic", fl: fl}
+		}
+		if d1 != d2 {
+			return fail("not-stable", "arbitrary-debugstring-not-stable",
+				fmt.Sprintf("DebugString differs after re-encoding\n--- decoded\n%s--- again\n%s", d1, d2))
+		}
+		var enc2 []byte
+		if fl := catch("Encode(decoded twice)", func() { enc2, err = encode(&ve2) }); fl != nil {
+			return decodeResult{outcome: "panic", fl: fl}
+		}
+		if err != nil || !sameEncoding(&ve, enc, enc2) {
+			return fail("not-stable", "arbitrary-reencode-differs",
+				fmt.Sprintf("second re-encoding differs (err=%v)\n first %x\nsecond %x", err, enc, enc2))
+		}
 	}
 	out := "ok-nonempty"
 	if len(enc) == 0 {
